@@ -1,7 +1,9 @@
 //! Correspondence harness: runs the real skim code in-process.
 //! stdin: one request per line `<prop>\t<case>`; stdout: one answer line per request.
+mod c01;
 mod c15;
 mod c18;
+mod session;
 mod util;
 
 use std::io::{BufRead, Write};
@@ -9,6 +11,7 @@ use std::panic;
 
 fn dispatch(prop: &str, case: &str) -> String {
     match prop {
+        "C01" | "C14" | "C05" | "C10S" => c01::run(case),
         "C15" => c15::run(case),
         "C18" => c18::run(case),
         _ => "error:unknown-property".into(),
